@@ -136,3 +136,26 @@ case: leP => h.
   by split; field; rewrite e21n dn'.
 Qed.
 End Solve2.
+
+(* ------------------------------------------------------------------ the pivot decision inside permutate_mat IS bk_choice *)
+Section Decision.
+Variable o : Ops.
+Variable alpha : T o.
+(* is_1x1 flag returned by permutate_mat, as a function of the decision; lambda > 0 *)
+Theorem permutate_mat_decision n P pm k :
+  let '(lambda, r) := find_lambda o n P k in
+  Ops.ltb o (zero o) lambda = true ->
+  let abs_akk := Ops.abs o (pget o P k k) in
+  let '(sigma, p) := find_sigma o n P k r k in
+  fst (fst (permutate_mat o alpha n P pm k)) = negb (Nat.eqb (bk_choice o alpha abs_akk lambda sigma (Ops.abs o (pget o P r r))) 2).
+Proof.
+rewrite /permutate_mat /bk_choice.
+case: (find_lambda o n P k) => lambda r lpos; rewrite lpos /=.
+case: (find_sigma o n P k r k) => sigma p.
+case: (Ops.ltb o (Ops.abs o (pget o P k k)) _) => //=.
+case: (Ops.ltb o (Ops.mul o sigma _) _) => //=.
+case: (Ops.leb o _ _) => /=.
+- by case: (pivoting_1x1 o n P pm k r).
+- by case: (pivoting_2x2 o n P pm k r k).
+Qed.
+End Decision.
